@@ -32,22 +32,25 @@ Theorem C03_wfa_sound_refuted_gap_skip : ~ C03_wfa_sound_statement.
 Proof. exact wfa_sound_full_refuted. Qed.
 
 (* COMPLETION at full strength — after the healing rounds every parked caller has been answered — is
-   FALSE (known finding C03-stale-proxy): after delete_datareader on the peer (or deletion of its
-   participant) the writer keeps the RTPS reader proxy, nobody acknowledges any more and the wait list
-   is only drained by an incoming ACKNACK *)
+   FALSE (known finding C03-stale-waiter): when the matched reader is deleted (delete_datareader on the
+   peer, or deletion of its participant) the RTPS reader proxy is removed, so nobody will ever send an
+   ACKNACK again, and the wait list is only re-evaluated when an ACKNACK is accepted: a caller parked
+   before the deletion is never answered although a fresh call succeeds at once *)
 Definition C03_wfa_completes_statement : Prop :=
   forall cf sched k, (rounds_needed sched <= k)%nat -> npend (run cf init (sched ++ heal k)) = 0%nat.
-Theorem C03_wfa_completes_refuted_stale_proxy : ~ C03_wfa_completes_statement.
+Theorem C03_wfa_completes_refuted_stale_waiter : ~ C03_wfa_completes_statement.
 Proof. exact wfa_completes_full_refuted. Qed.
 
-Theorem C03_stale_proxy_witness_reader :
+Theorem C03_stale_waiter_witness_reader :
   let s := run cf_plain init (sched_stale ADelReader) in
-  s_rd s = None /\ s_dcps s = false /\ snd (step cf_plain s AWfaPoll) = OPoll [1] /\ snd (step cf_plain s AWfa) = OCode (-1).
-Proof. exact stale_proxy_witness_reader. Qed.
-Theorem C03_stale_proxy_witness_participant :
+  s_rp s = None /\ s_dcps s = false /\ s_net s = [] /\
+  snd (step cf_plain s AWfaPoll) = OPoll [1] /\ snd (step cf_plain s AWfa) = OCode 0.
+Proof. exact stale_waiter_witness_reader. Qed.
+Theorem C03_stale_waiter_witness_participant :
   let s := run cf_plain init (sched_stale ADelPart) in
-  s_rd s = None /\ s_dcps s = false /\ snd (step cf_plain s AWfaPoll) = OPoll [1] /\ snd (step cf_plain s AWfa) = OCode (-1).
-Proof. exact stale_proxy_witness_participant. Qed.
+  s_rp s = None /\ s_dcps s = false /\ s_net s = [] /\
+  snd (step cf_plain s AWfaPoll) = OPoll [1] /\ snd (step cf_plain s AWfa) = OCode 0.
+Proof. exact stale_waiter_witness_participant. Qed.
 
 (* non-vacuity: a parked caller is answered by the healing round that repairs a lost DATA *)
 Example C03_nonvacuous :
@@ -59,6 +62,6 @@ Proof. exact heal_example_unfragmented. Qed.
 Print Assumptions C03_wfa_sound_immediate.
 Print Assumptions C03_wfa_sound_notified.
 Print Assumptions C03_wfa_sound_refuted_gap_skip.
-Print Assumptions C03_wfa_completes_refuted_stale_proxy.
-Print Assumptions C03_stale_proxy_witness_reader.
-Print Assumptions C03_stale_proxy_witness_participant.
+Print Assumptions C03_wfa_completes_refuted_stale_waiter.
+Print Assumptions C03_stale_waiter_witness_reader.
+Print Assumptions C03_stale_waiter_witness_participant.
